@@ -36,7 +36,11 @@ LEVEL_TEXT = ('Lean 4 theorems, for all lists of tilt elements (angular, first-o
               '(each split derived from its own Field.shift) equals the sum with each segment\'s ramp written into its OPD, at every sample all windows cover; the tilt lists of '
               'Wavefront(tilt), products and Tilt planes are derived from the generated wiring. Regenerated: Tilt.__init__/shift, first-order '
               'DispersiveTilt.shift, Field.shift units and axes, ptt_vector rows, subtracted rows/coefficients, recorded indices, the tilt[n::size] '
-              'stride, Wavefront.__init__/Field.__mul__/TiltInterface.multiply list wiring.')
+              'stride, Wavefront.__init__/Field.__mul__/TiltInterface.multiply list wiring. '
+              'The mesh under ptt_vector is the regenerated helper.mesh: Gen.meshRot (Gen.meshCoord n i 0) … 1 0 = the centred index cc the basis, the ramp and the phasor are '
+              'written with (ptt_mesh_is_generated, pttBasis_over_generated_mesh; defaults shift=(0,0), angle=0 guarded). The call fit_tilt() with its early return '
+              '(regenerated tests Gen.fitTiltSkips, Gen.pttVectorNone; model fitTiltCall): OPD + ramp of what was recorded is unchanged in both branches '
+              '(fit_tilt_call_total_unchanged); nothing is fitted exactly when the plane has no shape or its OPD a single sample, and then the OPD comes back as it was (fit_tilt_call_skips_iff).')
 LEVEL_NOTE = ('Partial, two stated contracts: (1) np.linalg.lstsq returns a solution of the normal equations of the masked basis — the single trusted '
               'fact of the fit clause (hypothesis hN of fit_tilt_is_least_squares), re-solved independently and checked by the oracle on every case; '
               '(2) for DispersiveTilt of order > 1, scipy.optimize.leastsq/scipy.integrate.quad return a root of the generated residuals (DispersiveSolved), '
@@ -55,7 +59,7 @@ RULE = ('cases: (shift) lists of 1..4 angular / first-order dispersive / higher-
         'several elements in different orders, a first-order DispersiveTilt plane (alone and after a Tilt plane) vs the OPD ramp of its displacement at the wavelength, '
         'segmented apertures with per-segment tilts, non-square output pixels, os 1..3. '
         'distinct = (kind, shapes, element kinds, order, sampling class); non-trivial = everything but a single zero tilt'
-        ' Extremes stream: every length scaled by 1e-9..1e3, the same tilt objects asked at wavelengths 3e-6..3e-4 apart (relative) and compared with fresh objects, lists of up to 47 tilt elements, almost-square output pixels, planes with more than 2**18 samples (1-D-like and 513..530 square; oracle only).')
+        ' Extremes stream: every length scaled by 1e-9..1e3, the same tilt objects asked at wavelengths 3e-6..3e-4 apart (relative) and compared with fresh objects, lists of up to 47 tilt elements, almost-square output pixels, planes with more than 2**18 samples (1-D-like and 513..530 square; oracle only). Fitskip stream (8 quick / 40 search / 80 thorough): fit_tilt on scalar-OPD, one-sample and shapeless planes (early return) and a two-sample control, inplace or copy, with or without already recorded tilt.')
 TRUSTED = ['scipy.optimize.leastsq / scipy.integrate.quad: root of the generated residual / the integral (contract DispersiveSolved)',
            'np.linalg.lstsq returns a solution of the normal equations of the masked basis (contract; hypothesis hN of fit_tilt_is_least_squares; the oracle re-solves them)',
            'np.einsum / reshape / broadcasting as modelled in Model/Tilt.lean; propagate_dft as modelled for C02']
@@ -64,7 +68,7 @@ UNPROVEN = ['higher-order DispersiveTilt: that scipy.optimize.leastsq(x0=0) conv
             'tilt-list sharing between products (aliasing) and Plane.copy in fit_tilt(inplace=False): correspondence + oracle',
             'segmented_tilt_equiv_complex / tilt_representations_equiv_complex hold at samples inside every compared window only (outside one window that side is 0 by C02)']
 ASSUMPTIONS = ['binary masks, pairwise disjoint non-empty segments; least-squares uniqueness claimed and checked only when a segment has 3 non-collinear pixels (otherwise lstsq returns the minimum-norm solution; only opd + recorded tilt unchanged is checked)',
-               'OPD is a float array with more than one sample (fit_tilt returns the plane unchanged for a scalar / one-sample OPD; integer OPD arrays raise in `opd -= ...`): not generated',
+               'OPD is a float array or scalar: scalar / one-sample OPD and planes without shape are generated (fitskip stream: fit_tilt must hand the plane back untouched; model fitTiltCall over the regenerated test Gen.fitTiltSkips / Gen.pttVectorNone); integer OPD arrays raise in `opd -= ...`: not generated',
                'higher-order dispersive elements at length scales < 1e-6 and planes with > 2**18 samples at pixel scales < 3e-8 m are generated but not run through the model: they are the input classes of the two open known findings',
                'generated tilt shifts keep a fractional part in [0.05,0.95] so that np.fix is insensitive to rounding']
 
@@ -152,6 +156,16 @@ def _gen_fit_big(rng):
     return {'kind': 'fit', 'nomodel': True, 'big': True, 'shape': [m, n], 'px': px, 'scalar_px': False, 'labels': [int(x) for x in lab.ravel()],
             'nseg': 1, 'opd': [float(x) for x in opd.ravel()], 'update': None, 'inplace': bool(rng.integers(0, 2)), 'amp_scalar': True,
             'preloaded': None}
+
+def _gen_fitskip(rng, k):
+    """fit_tilt() on planes for which nothing can be fitted (early return): a scalar OPD over a mask, a one-sample plane, a plane without
+    shape (no mask: ptt_vector is None); control: a two-sample plane (the fit runs). Already recorded tilts must survive."""
+    v = ['scalar-opd', 'one-sample', 'no-shape', 'two-sample'][k % 4]
+    m, n = (int(rng.integers(2, 6)), int(rng.integers(2, 6))) if v == 'scalar-opd' else (1, 2) if v == 'two-sample' else (1, 1)
+    px = [float(rng.choice([1e-3, 2e-3, 5e-4])) * KS, float(rng.choice([1e-3, 2e-3, 5e-4])) * KS]
+    return {'kind': 'fitskip', 'variant': v, 'shape': [m, n], 'px': px, 'scalar_px': bool(px[0] == px[1] and rng.integers(0, 2)),
+            'opd0': [float(x) * 1e-7 * KS for x in rng.integers(-8, 9, 2)], 'inplace': bool(rng.integers(0, 2)),
+            'preloaded': [[float(rng.uniform(-1e-6, 1e-6)), float(rng.uniform(-1e-6, 1e-6))]] if rng.integers(0, 2) else None}
 
 def _gen_equiv(rng):
     m, n = int(rng.integers(2, 7)), int(rng.integers(2, 7))
@@ -243,6 +257,8 @@ def generate(rng, tier):
         elif t % 4 == 1: one(lambda: _gen_fit(rng), ks)
         elif t % 4 == 2: one(lambda: _gen_equiv(rng), ks)
         else: one(lambda: _gen_reuse(rng), ks)
+    # early-return stream of fit_tilt (Gen.fitTiltSkips / Gen.pttVectorNone, model fitTiltCall)
+    for k in range({'quick': 8, 'thorough': 80, 'search': 40}[tier]): one(lambda: _gen_fitskip(rng, k))
     _use({})
     return out
 
@@ -284,6 +300,25 @@ def _plane(c, opd):
 def _rec(p):
     # Tilt(x=t1, y=t2) stores self.x = y, self.y = x
     return [[float(t.y), float(t.x)] for t in p.tilt]
+
+def _impl_fitskip(c):
+    import lentil
+    v = c['variant']; m, n = c['shape']
+    px = c['px'][0] if c.get('scalar_px') else tuple(c['px'])
+    if v == 'scalar-opd': p0 = lentil.Pupil(amplitude=1, opd=c['opd0'][0], mask=np.ones((m, n), int), pixelscale=px, focal_length=Z)
+    elif v == 'no-shape': p0 = lentil.Pupil(amplitude=1, opd=c['opd0'][0], pixelscale=px, focal_length=Z)
+    else: p0 = lentil.Pupil(amplitude=np.ones((m, n)), opd=np.array(c['opd0'][:m * n], dtype=float).reshape(m, n), mask=np.ones((m, n), int), pixelscale=px, focal_length=Z)
+    if c.get('preloaded'): p0.tilt = [lentil.Tilt(x=a, y=b) for a, b in c['preloaded']]
+    before = np.array(p0.opd, dtype=float).copy(); ntilt0 = len(p0.tilt)
+    obs = {'shape_empty': bool(p0.shape == ()), 'shape_none': bool(p0.shape is None), 'opd_size': int(np.asarray(p0.opd).size)}
+    try:
+        p1 = p0.fit_tilt(inplace=c['inplace'])
+    except Exception as e:
+        return dict(obs, exc=type(e).__name__, msg=f"fit_tilt on a {v} plane (opd.size={obs['opd_size']}): {str(e)[:160]}")
+    obs.update({'ntilt0': ntilt0, 'ntilt1': len(p1.tilt), 'pre1': _rec(p1)[:ntilt0], 'same_object': p1 is p0,
+                'opd_same': bool(np.shape(p1.opd) == np.shape(before) and np.array_equal(np.asarray(p1.opd, float), before)),
+                'orig_opd_same': bool(np.array_equal(np.asarray(p0.opd, float), before)), 'orig_ntilt': len(p0.tilt)})
+    return obs
 
 def _impl_fit(c):
     import lentil
@@ -431,6 +466,7 @@ def impl(c):
     try:
         if c['kind'] == 'shift': return _impl_shift(c)
         if c['kind'] == 'fit': return _impl_fit(c)
+        if c['kind'] == 'fitskip': return _impl_fitskip(c)
         if c['kind'] == 'reuse': return _impl_reuse(c)
         return _impl_equiv(c)
     except NotImplementedError as e:
@@ -495,6 +531,8 @@ def requests(c, io):
     _use(c)
     if c.get('nomodel'): return []
     if 'exc' in io: return []
+    if c['kind'] == 'fitskip':
+        return [{'op': 'c04.fit_call_skips', 'shape_empty': io['shape_empty'], 'shape_none': io['shape_none'], 'opd_size': io['opd_size']}]
     if c['kind'] == 'shift':
         # higher-order dispersive elements enter the model with the harness' own root of their residual equations (contract DispersiveSolved)
         if any(e['k'] == 'dh' and _solve_dh(e, c['wl']) is None for e in c['tilts']): return []
@@ -544,6 +582,13 @@ def compare(c, io, mo):
     if 'exc' in io: return f"implementation raised {io['exc']}: {io.get('msg')}"
     for m in mo:
         if not m.get('ok'): return f"model refused: {m.get('err')}"
+    if c['kind'] == 'fitskip':
+        skipped = bool(io['ntilt1'] == io['ntilt0'] and io['opd_same'])
+        if skipped != bool(mo[0]['skips']):
+            return (f"fit_tilt on a plane with shape_empty={io['shape_empty']} shape_none={io['shape_none']} opd.size={io['opd_size']}: implementation "
+                    f"{'returned the plane untouched' if skipped else 'fitted (recorded ' + str(io['ntilt1'] - io['ntilt0']) + ' tilt, opd same: ' + str(io['opd_same']) + ')'}, "
+                    f"the model's early-return test says skips={mo[0]['skips']}")
+        return None
     if c['kind'] == 'shift':
         if not mo: return None
         m = mo[0]
@@ -707,6 +752,18 @@ def _oracle_fit(c, io):
                 return f"segment {k}: field shift {io['field_shift'][k]} is not that of the sum of its recorded tilts {want}"
     return None
 
+def _oracle_fitskip(c, io):
+    pre = c.get('preloaded') or []
+    if [list(t) for t in io['pre1']] != [list(t) for t in pre]: return f"tilt elements the plane carried before fit_tilt were altered: {io['pre1']} vs {pre}"
+    if io['same_object'] != c['inplace']: return f"inplace={c['inplace']} but returned object is{' ' if io['same_object'] else ' not '}the original"
+    if not c['inplace'] and (not io['orig_opd_same'] or io['orig_ntilt'] != io['ntilt0']): return 'fit_tilt(inplace=False) changed the original plane'
+    if c['variant'] == 'two-sample':
+        return None if io['ntilt1'] == io['ntilt0'] + 1 else f"two-sample plane: {io['ntilt1'] - io['ntilt0']} tilts recorded, expected 1"
+    # no tilt can be extracted from a single sample / without pixel coordinates: OPD plus recorded tilt is unchanged only if both stay as they are
+    if io['ntilt1'] != io['ntilt0']: return f"{c['variant']} plane (opd.size={io['opd_size']}): fit_tilt recorded {io['ntilt1'] - io['ntilt0']} tilt element(s) although there is nothing to fit"
+    if not io['opd_same']: return f"{c['variant']} plane (opd.size={io['opd_size']}): fit_tilt changed the OPD although there is nothing to fit"
+    return None
+
 def _oracle_equiv(c, io):
     reps = io['reps']
     tol = 1e-9 * (1 + io['insum'])
@@ -802,18 +859,20 @@ def oracle(c, io):
     if c['kind'] == 'reuse': return _oracle_reuse(c, io)
     if c['kind'] == 'shift': return _oracle_shift(c, io)
     if c['kind'] == 'fit': return _oracle_fit(c, io)
+    if c['kind'] == 'fitskip': return _oracle_fitskip(c, io)
     return _oracle_equiv(c, io)
 
 # ------------------------------------------------------------------------------------------ coverage
 def signature(c):
     if c['kind'] == 'shift': return f"shift ks={c.get('KS')} n={len(c['tilts'])} {[e['k'] for e in c['tilts']][:6]} perm={c['perm']} os={c['os']} du={c['du'][0]:.4g},{c['du'][1]:.4g}"
     if c['kind'] == 'reuse': return f"reuse nseg={c['nseg']} {c['base_kind']} {c['shape']} S={c['out_shape']} os={c['os']} base={[round(v, 2) for v in c['tilt_px'][0]]} scan={[[round(v, 2) for v in t] for t in c['scan']]}"
+    if c['kind'] == 'fitskip': return f"fitskip {c['variant']} {c['shape']} inpl={c['inplace']} pre={c.get('preloaded') is not None} px={c['px']} opd0={c['opd0']}"
     if c['kind'] == 'fit': return f"fit ks={c.get('KS')} pre={c.get('preloaded') is not None} inpl={c['inplace']} {c['shape']} nseg={c['nseg']} px={c['px']} upd={c['update'] is not None} lab={c['labels'][:12]} opd0={c['opd'][0]:.4g}"
     return f"equiv {c['shape']} nseg={c['nseg']} S={c['out_shape']} os={c['os']} tilt={[[round(v, 2) for v in t] for t in c['tilt_px']]} ps={c['prop_shape']}"
 
 def nontrivial(c):
     if c['kind'] == 'shift': return len(c['tilts']) > 1 or c['du'][0] != c['du'][1]
-    if c['kind'] in ('fit', 'reuse'): return True
+    if c['kind'] in ('fit', 'reuse', 'fitskip'): return True
     return any(v != 0 for t in c['tilt_px'] for v in t)
 
 def tags(c):
@@ -833,6 +892,9 @@ def tags(c):
         if c.get('preloaded'): t.append('preloaded-tilt')
         t.append('inplace' if c['inplace'] else 'copy')
         if c['px'][0] != c['px'][1]: t.append('px:per-axis')
+    elif c['kind'] == 'fitskip':
+        t.append('fitskip:' + c['variant']); t.append('inplace' if c['inplace'] else 'copy')
+        if c.get('preloaded'): t.append('preloaded-tilt')
     else:
         t.append(f"nseg={c['nseg']}")
         if c['du'][0] != c['du'][1]: t.append('du:non-square')
